@@ -9,6 +9,7 @@ in-tolerance verdict is backed by a theorem rather than by a constant chosen by 
 -/
 import SpatialId.Props.C20Vec
 import SpatialId.Props.C06Mid
+import SpatialId.Lemmas.F64Congr
 namespace SpatialId.C20Err
 open SpatialId F64
 
@@ -88,6 +89,11 @@ theorem toPoint_one_close (s e : Dy) :
   have c51 : (2 : ℚ) ^ (-51 : Int) = 4 * (2 : ℚ) ^ (-53 : Int) := by
     rw [show (-51 : Int) = 2 + (-53) by norm_num, zpow_add₀ two_ne]; norm_num
   rw [c73, c51]; exact this
+
+/-- `ToPoint(1)` and `End()` return the same value (multiplying the direction by the binary64 `1` is exact, and addition is a
+function of the values of its operands) -/
+theorem toPoint_one_eq_end (s e : Dy) : val (add s (mul ⟨1, 0⟩ (sub e s))) = val (add s (sub e s)) :=
+  add_val_congr _ _ _ _ rfl (mul_one_val _ (by unfold sub; exact repVal_add _ _))
 
 /-- the pure inequality behind `dot_err`: three rounded products, two rounded sums -/
 theorem five_roundings (P1 P2 P3 p1 p2 p3 s1 s2 u c : ℚ) (hu : 0 < u) (hu4 : u ≤ 1 / 4) (hc : 0 < c)
